@@ -62,6 +62,46 @@ Definition write_token (c : codec) (nochange : bool) (st : wstate) (tk : token) 
   | TItemValue b => Ok (emit st (w_stack st) (w_last st) (st_write_bytes b))
   end.
 
+(** The increment of [StatefulEncoder::bytes_written] caused by one token
+    (state before the token), from the counts the code adds. *)
+Definition count_token (c : codec) (nochange : bool) (st : wstate) (tk : token) : outcome N :=
+  match tk with
+  | TSeqStart t len => count_header c t SQ (if nochange then len else undef)
+  | TItemStart _ => Ok 8
+  | TItemEnd =>
+      match w_stack st with
+      | (is_item, len) :: _ => Ok (if is_item && N.eqb len undef then 8 else 0)
+      | [] => Ok 0
+      end
+  | TSeqEnd =>
+      match w_stack st with
+      | (is_item, len) :: _ => Ok (if negb is_item && N.eqb len undef then 8 else 0)
+      | [] => Ok 0
+      end
+  | TElemHeader _ _ _ => Ok 0
+  | TPixStart => count_header c pixel_tag OB undef
+  | TPrim p =>
+      match w_last st with
+      | None => Err E_UnexpectedToken
+      | Some (t, v, _) => count_prim_element c t v p
+      end
+  | TOffsetTable l => Ok (nlen l * 4)
+  | TItemValue b => Ok (blen b + (if Nat.odd (length b) then 1 else 0))
+  end.
+
+(** writer with the counter: state, bytes_written *)
+Fixpoint write_tokens_counted (c : codec) (nochange : bool) (st : wstate) (k : N) (tks : list token)
+  : outcome (wstate * N) :=
+  match tks with
+  | [] => Ok (st, k)
+  | tk :: rest =>
+      match count_token c nochange st tk, write_token c nochange st tk with
+      | Ok n, Ok st' => write_tokens_counted c nochange st' (k + n) rest
+      | Err e, _ => Err e | _, Err e => Err e
+      | _, _ => Panic 0
+      end
+  end.
+
 Fixpoint write_tokens (c : codec) (nochange : bool) (st : wstate) (tks : list token) : outcome wstate :=
   match tks with
   | [] => Ok st
